@@ -168,6 +168,22 @@ def systematic_programs(rng, kinds, fraction):
     return out
 
 
+def mass_expiry_programs(rng):
+    """more expired entries than any batching threshold a clean-up might use, then clean / lookup /
+    observers racing: a clean that lets go of the lock half way shows a size no sequential order has"""
+    out = []
+    for kind in ("tlru", "utlru", "utmap", "utset"):
+        n = 70
+        ttl = 2
+        cfg = dict(kind=kind, cap=0 if kind in ("utmap", "utset") else n + 2, ts=1, mlf=100, ttl=ttl, tick=2, rnum=1,
+                   rsh=1, fl=0, keys=n + 2)
+        pre = ["ins %d %d 3 %d" % (k, 1 if kind == "utset" else 5, ttl) for k in range(1, n + 1)]
+        pre.append("tick %d" % (4 * ttl + 1))
+        for other in ("size", "find 1 0", "ins %d 1 3 %d" % (n + 1, 50), "empty"):
+            out.append(dict(cfg=cfg, pre=list(pre), thr=[["clean"], [other]], post=["obs"]))
+    return out
+
+
 def interleavings(seqs):
     """all merges of the per-thread step sequences (order within a thread preserved)"""
     if all(not s for s in seqs):
@@ -437,8 +453,11 @@ def check_c06(tier):
         for s in schedules_for(rng, prog, lim):
             cases.append((prog, s))
     # every pair of methods on the same key from every kind of starting state
-    for prog in systematic_programs(rng, KINDS, 0.5 if tier == "quick" else 1.0):
+    for prog in systematic_programs(rng, KINDS, 0.35 if tier == "quick" else 1.0):
         for s in schedules_for(rng, prog, 20, grants=2):
+            cases.append((prog, s))
+    for prog in mass_expiry_programs(rng):
+        for s in schedules_for(rng, prog, 12, grants=3):
             cases.append((prog, s))
     # schedules enumerated by TLC for the model's own programs
     cases += concmc.model_cases(mc, rng)
